@@ -96,8 +96,25 @@ class Monitor:
         self.metric = cfg["metric"]
         self.tz, self.t = cfg["tz"], cfg["t"]
         freeze(self.tz, self.t)
-        self.s = Session(self.v, Config(metric=self.metric))
+        restore = cfg.get("restore")
+        if restore:
+            # nodes restored from a persistence file by the real load (e.g. a sleeping gateway node of an earlier session)
+            from aiomysensors.model.node import Child, Node
+
+            from .. import pers
+
+            nodes = {n: Node(n, 18 if n == 0 else 17, ver, children={3: Child(3, 3, values={2: "v"})}, sleeping=sl) for n, ver, sl in restore}
+            kind, val, vfs = pers.save_nodes(nodes)
+            assert kind == "ok", val
+            self.s = Session(self.v, Config(metric=self.metric, persistence_file=pers.PATH))
+            kind, val = pers.run(self.s.gateway.persistence.load, vfs)
+            assert kind == "ok", val
+        else:
+            self.s = Session(self.v, Config(metric=self.metric))
         self.model = R.RegistryModel()
+        for n, ver, _sl in (cfg.get("restore") or []):
+            self.model.nodes[n] = self.model.fresh(18 if n == 0 else 17, ver)
+            self.model.nodes[n]["children"][3] = {"type": 3, "description": "", "values": {2: "v"}}
         self.parked: list[str] = []
         self.nontrivial = False
         self.last_desc = None
@@ -234,6 +251,8 @@ def run(ctx: core.Ctx) -> core.Report:
     # deeper states: start from a node with a child and a stored value (three set-up messages)
     base3 = [["line", [1, 255, 0, 0, 17, "2.0"]], ["line", [1, 3, 0, 0, 3, ""]], ["line", [1, 3, 1, 0, 2, "v"]]]
     pcfgs = [{"version": v, "metric": True, "tz": "IST-5:30", "t": T_SUMMER, "reply": "2.2.0", "prefix": base3} for v in ([None, "2.1", "2.2"] if ctx.quick else versions)]
+    # registries restored from persistence: a sleeping gateway node and a sleeping ordinary node, version unknown or known
+    pcfgs += [{"version": v, "metric": True, "tz": "IST-5:30", "t": T_WINTER, "reply": "2.1.1", "restore": [[0, "2.1", True], [1, "2.1", True]]} for v in ([None, "2.1"] if ctx.quick else versions)]
     pres = bfs.search(ctx, MOD, pcfgs, max_depth=depth - 1)
     for k in ("states", "transitions", "nontrivial_transitions"):
         res[k] += pres[k]
